@@ -100,3 +100,56 @@ pub fn history(case: &Value) -> Value {
     let _ = std::fs::remove_dir_all(&inc.dir);
     json!({"incremental": got, "fresh": want})
 }
+
+/// load + analyse: {"diagnostics": [...], "references": [...]} for {"names": [files]}
+pub fn analyse(case: &Value) -> Value {
+    let names: Vec<String> = case["names"].as_array().unwrap().iter().map(|n| n.as_str().unwrap().to_string()).collect();
+    let mut l = load(case);
+    let out = observe(&mut l.project, &l.dir, &names);
+    let _ = std::fs::remove_dir_all(&l.dir);
+    out
+}
+
+fn ent_json(e: vhdl_lang::EntRef<'_>) -> Value {
+    use vhdl_lang::Related;
+    let related = match e.related {
+        Related::DeclaredBy(o) => json!(["DeclaredBy", o.id().to_raw()]),
+        Related::InstanceOf(o) => json!(["InstanceOf", o.id().to_raw()]),
+        Related::ImplicitOf(o) => json!(["ImplicitOf", o.id().to_raw()]),
+        Related::DerivedFrom(o) => json!(["DerivedFrom", o.id().to_raw()]),
+        Related::None => json!(["None", 0]),
+    };
+    json!({"id": e.id().to_raw(), "decl": e.decl_pos().map(pos_json), "name": e.designator().to_string(), "related": related})
+}
+
+/// load + analyse + the editor queries at {"file": name, "line": l, "character": c}; {"second": [file, l, c]} optionally resolves a second cursor
+pub fn query(case: &Value) -> Value {
+    use vhdl_lang::Position;
+    let mut l = load(case);
+    l.project.analyse();
+    let project = &l.project;
+    let src = project.get_source(&l.dir.join(case["file"].as_str().unwrap())).expect("source");
+    let cursor = Position::new(case["line"].as_u64().unwrap() as u32, case["character"].as_u64().unwrap() as u32);
+    let item = project.item_at_cursor(&src, cursor).map(|(p, e)| json!([pos_json(&p), ent_json(e)]));
+    let decl = project.find_declaration(&src, cursor);
+    let definition = project.find_definition(&src, cursor).map(ent_json);
+    let type_definition = project.find_type_definition(&src, cursor).map(ent_json);
+    let implementation: Vec<Value> = project.find_implementation(&src, cursor).into_iter().map(ent_json).collect();
+    let completions = project.list_completion_options(&src, cursor).len();
+    let (references, hover) = match decl {
+        Some(e) => (
+            project.find_all_references(e).iter().map(pos_json).collect::<Vec<_>>(),
+            project.format_declaration(e),
+        ),
+        None => (vec![], None),
+    };
+    let second = case.get("second").filter(|s| !s.is_null()).map(|s| {
+        let src2 = project.get_source(&l.dir.join(s[0].as_str().unwrap())).expect("source");
+        let c2 = Position::new(s[1].as_u64().unwrap() as u32, s[2].as_u64().unwrap() as u32);
+        project.find_declaration(&src2, c2).map(ent_json)
+    });
+    let out = json!({"item": item, "declaration": decl.map(ent_json), "definition": definition, "type_definition": type_definition,
+        "implementation": implementation, "completions": completions, "references": references, "hover": hover, "second": second});
+    let _ = std::fs::remove_dir_all(&l.dir);
+    out
+}
